@@ -518,6 +518,57 @@ def check_reset_complete(rep, model: Model, rule: str) -> None:
                               witness_class="child-not-reset")
 
 
+REDUCTION_PROTOCOL_PREFIXES = ("_reduce", "_take_reduction_step", "_fully_reduce", "_normalize", "_consolidate", "_rebuild")
+
+
+def check_no_unreset_state(rep, model: Model, rule: str) -> None:
+    """Every instance field that an expression class writes outside its constructor, outside the reset and
+    outside the rewriting protocol (i.e. during evaluation or differentiation at a point) is state that
+    depends on the point: the class's `_reset_evaluation_cache` (own or inherited through super()) must
+    assign it, otherwise it survives into the next query."""
+    def self_stores(fi):
+        sn = self_name(fi)
+        out = {}
+        for node in ast.walk(fi.node):
+            if isinstance(node, (ast.Assign, ast.AugAssign, ast.AnnAssign)):
+                if isinstance(node, ast.AnnAssign) and node.value is None:
+                    continue
+                targets = node.targets if isinstance(node, ast.Assign) else [node.target]
+                for t in targets:
+                    for el in (t.elts if isinstance(t, (ast.Tuple, ast.List)) else [t]):
+                        if isinstance(el, ast.Attribute) and isinstance(el.value, ast.Name) and el.value.id == sn:
+                            out.setdefault(el.attr, node.lineno)
+        return out
+    n = 0
+    for ci in model.concrete_expression_classes():
+        mro = model.mro(ci)
+        cleared = set()
+        for c in mro:
+            r = c.methods.get("_reset_evaluation_cache")
+            if r is not None:
+                cleared |= set(self_stores(r))
+        seen_methods = set()
+        for c in mro:
+            for name, fi in c.methods.items():
+                if name in seen_methods:
+                    continue
+                seen_methods.add(name)
+                if name in ("__init__", "_reset_evaluation_cache") or name.startswith(REDUCTION_PROTOCOL_PREFIXES):
+                    continue
+                for fld, ln in self_stores(fi).items():
+                    n += 1
+                    construct = f"{ci.name}: {fi.qualname} writes self.{fld}"
+                    where = f"{fi.module.rel}:{ln}"
+                    if fld in cleared:
+                        rep.ok(rule, construct, where, "assigned by the class's _reset_evaluation_cache chain")
+                    else:
+                        rep.violation(rule, f"{fi.qualname} writes self.{fld}", where,
+                                      f"{fi.qualname} stores point-dependent state in self.{fld} (class {ci.name}), which no "
+                                      f"_reset_evaluation_cache of that class assigns: it survives into queries at other "
+                                      f"points", witness_class=f"unreset field {fld}")
+    rep.extra["point_state_stores_examined"] = n
+
+
 IMMUTABLE_CALLS = {"TypeVar", "compile", "frozenset", "tuple", "int", "float", "str", "bool", "NewType", "getLogger"}
 
 
